@@ -36,8 +36,10 @@ PINNED = [
      'preprocess(): -E prints the preprocessing tokens themselves'),
     ('main.c', 'cc1', r'^static\s+void\s+cc1\s*\(\s*void\s*\)\s*\{',
      r'Token \*tok2 = must_tokenize_file\(base_file\); tok = append_tokens\(tok, tok2\); tok = preprocess\(tok\); '
-     r'if \(opt_M \|\| opt_MD\) \{ print_dependencies\(\); if \(opt_M\) return; \} '
-     r'if \(opt_E\) \{ print_tokens\(tok\); return; \}',
+     r'char \*deps = NULL; size_t deps_len = 0; '
+     r'if \(opt_M \|\| opt_MD\) \{ FILE \*deps_buf = open_memstream\(&deps, &deps_len\); print_dependencies\(deps_buf\); '
+     r'fclose\(deps_buf\); if \(opt_M\) \{ write_file\(dependency_path\(\), deps, deps_len\); return; \} \} '
+     r'if \(opt_E\) \{ print_tokens\(tok\); if \(opt_MD\) write_file\(dependency_path\(\), deps, deps_len\); return; \}',
      'cc1: tokenize, preprocess, print_tokens under -E'),
 ]
 
